@@ -274,8 +274,8 @@ Proof.
   cbn [value_fits] in Hv. apply N.ltb_lt in Hv. cbn [acc_set]. rewrite !upd_put.
   destruct (nth_error st o) as [x|] eqn:Ex.
   2:{ destruct (put st o _) as [st1|] eqn:E1; [|reflexivity]. exfalso.
-      clear - Ex E1. revert o Ex E1. induction st as [|z r IH]; intros [|o]; cbn; try discriminate.
-      intros Ex. destruct (put r o _) eqn:E; [|discriminate]. intros _. eapply IH; eauto. }
+      destruct (put_spec _ _ _ _ E1) as (L & Hn & _). apply nth_error_None in Ex.
+      assert (Hne : nth_error st1 o <> None) by congruence. apply nth_error_Some in Hne. lia. }
   destruct (nth_error st (S o)) as [y|] eqn:Ey.
   2:{ destruct (put st o _) as [st1|] eqn:E1; [|reflexivity]. destruct (put_spec _ _ _ _ E1) as (_ & _ & Ho).
       rewrite (Ho (S o)) by lia. rewrite Ey. reflexivity. }
@@ -310,8 +310,126 @@ Definition kind_proved (k:fkind) : bool :=
 
 Lemma octets_ok_app a b : octets_ok (a ++ b) = octets_ok a && octets_ok b.
 Proof. unfold octets_ok. apply forallb_app. Qed.
+Lemma In_firstn {A} (x:A) n l : In x (firstn n l) -> In x l.
+Proof. intro H. rewrite <- (firstn_skipn n l). apply in_or_app. now left. Qed.
+Lemma In_skipn {A} (x:A) n l : In x (skipn n l) -> In x l.
+Proof. intro H. rewrite <- (firstn_skipn n l). apply in_or_app. now right. Qed.
 Lemma octets_ok_firstn n st : octets_ok st = true -> octets_ok (firstn n st) = true.
+Proof. unfold octets_ok. rewrite !forallb_forall. intros H x Hx. apply H. eapply In_firstn; eauto. Qed.
+Lemma octets_ok_skipn n st : octets_ok st = true -> octets_ok (skipn n st) = true.
+Proof. unfold octets_ok. rewrite !forallb_forall. intros H x Hx. apply H. eapply In_skipn; eauto. Qed.
+Lemma nth_firstn_lt {A} (d:A) n l i : (i < n)%nat -> nth i (firstn n l) d = nth i l d.
 Proof.
-  unfold octets_ok. rewrite !forallb_forall. intros H x Hx. apply H. eapply In_firstn_in; eauto.
-  Unshelve. all: exact 0%nat.
+  revert n i. induction l as [|y r IH]; intros [|n] [|i] H; cbn; try reflexivity; try lia. apply IH. lia.
+Qed.
+Lemma nth_skipn {A} (d:A) k l i : nth i (skipn k l) d = nth (k + i) l d.
+Proof.
+  revert l. induction k as [|k IH]; intros [|y r]; cbn; try reflexivity. - now destruct i. - apply IH.
+Qed.
+
+(* two-octet store: the arithmetic of the table on the pair (x, y), independent of x below bit 16-w *)
+Definition L16_check (w:nat) (y n:N) : bool :=
+  let X := n * pw (16 - w) + y mod pw (16 - w) in
+  (X / 256 <? 256) && ((256 * (X / 256) + X mod 256) / pw (16 - w) =? n) &&
+  forallb (fun b => if (16 - w <=? b)%nat then true else Bool.eqb (N.testbit (X mod 256) (N.of_nat b)) (N.testbit y (N.of_nat b))) (seq 0 8).
+Lemma L16_fin : forallb (fun w => forallb (fun y => forallb (L16_check w y) (rng (2 ^ w))) (rng 256)) (seq 9 3) = true.
+Proof. vm_compute. reflexivity. Qed.
+
+Theorem field_store_load k st v st' : kind_proved k = true -> octets_ok st = true -> spec_set k st v = Some st' ->
+  spec_get k st' = Some v /\ List.length st' = List.length st /\ octets_ok st' = true /\
+  forall i b, (b < 8)%nat -> in_field k (List.length st) i b = false ->
+    N.testbit (nth i st' 0) (N.of_nat b) = N.testbit (nth i st 0) (N.of_nat b).
+Proof.
+  intros Hk Hst. unfold spec_set. destruct (value_fits k st v) eqn:Hv; [|discriminate]. cbn [negb].
+  destruct k as [o hi lo|o w|first count|first]; cbn [kind_proved kind_ok] in Hk.
+  - (* bits of one octet *)
+    destruct v as [n|bs]; [|discriminate]. cbn [value_fits] in Hv. apply N.ltb_lt in Hv.
+    destruct (nth_error st o) as [x|] eqn:Ex; [|discriminate]. intro E.
+    fold (bits_ok hi lo) in Hk. pose proof (octets_ok_nth _ _ _ Hst Ex) as Hx.
+    pose proof (S_all hi lo x n Hk Hx Hv) as C. unfold S_check in C. cbv zeta in C. fold (stored hi lo x n) in E.
+    split_andb C. apply N.ltb_lt in C2. apply N.eqb_eq in C1.
+    destruct (put_spec _ _ _ _ E) as (L & Hn & Ho).
+    split; [cbn [spec_get]; rewrite Hn; now rewrite C1|]. split; [exact L|]. split; [eapply octets_ok_put; eauto|].
+    intros i b Hb Hf. rewrite (put_nth _ _ _ _ 0 E). destruct (i =? o)%nat eqn:Ei; [|reflexivity].
+    apply Nat.eqb_eq in Ei. subst i. rewrite (nth_error_nth _ _ 0 Ex).
+    cbn [in_field] in Hf. rewrite Nat.eqb_refl in Hf. cbn [andb] in Hf.
+    rewrite forallb_forall in C0. specialize (C0 b). rewrite Hf in C0. apply eqb_prop. apply C0. apply in_seq. lia.
+  - (* two octets *)
+    destruct v as [n|bs]; [|discriminate]. cbn [value_fits] in Hv. apply N.ltb_lt in Hv.
+    pose proof (span_ok_range _ Hk) as R.
+    destruct (nth_error st o) as [x|] eqn:Ex; [|discriminate]. destruct (nth_error st (S o)) as [y|] eqn:Ey; [|discriminate].
+    pose proof (octets_ok_nth _ _ _ Hst Ex) as Hx. pose proof (octets_ok_nth _ _ _ Hst Ey) as Hy.
+    assert (Hin : In w (seq 9 3)) by (apply in_seq; lia).
+    pose proof M16_fin as M. rewrite forallb_forall in M. specialize (M w Hin).
+    apply forallb_rng with (x := x) in M; [|exact Hx]. apply forallb_rng with (x := y) in M; [|exact Hy].
+    unfold M16_check in M. apply N.eqb_eq in M. rewrite M.
+    pose proof L16_fin as F. rewrite forallb_forall in F. specialize (F w Hin).
+    apply forallb_rng with (x := y) in F; [|exact Hy]. apply forallb_rng with (x := n) in F; [|now rewrite <- pw_nat].
+    unfold L16_check in F. cbv zeta in F. set (X := n * pw (16 - w) + y mod pw (16 - w)) in *.
+    split_andb F. apply N.ltb_lt in F. apply N.eqb_eq in F1.
+    destruct (put st o (X / 256)) as [st1|] eqn:E1; [|discriminate]. intro E2.
+    destruct (put_spec _ _ _ _ E1) as (L1 & Hn1 & Ho1). destruct (put_spec _ _ _ _ E2) as (L2 & Hn2 & Ho2).
+    assert (Hm : X mod 256 < 256) by (apply N.mod_lt; lia).
+    split; [cbn [spec_get]; rewrite (Ho2 o) by lia; rewrite Hn1, Hn2; now rewrite F1|].
+    split; [congruence|]. split; [eapply octets_ok_put; [eapply octets_ok_put|..]; eauto|].
+    intros i b Hb Hf. rewrite (put_nth _ _ _ _ 0 E2), (put_nth _ _ _ _ 0 E1). cbn [in_field] in Hf.
+    destruct (i =? o)%nat eqn:Ei; [cbn in Hf; discriminate|]. cbn [orb] in Hf.
+    destruct (i =? S o)%nat eqn:Ej; [|reflexivity]. cbn [andb] in Hf.
+    apply Nat.eqb_eq in Ej. subst i. rewrite (nth_error_nth _ _ 0 Ey).
+    rewrite forallb_forall in F0. specialize (F0 b). rewrite Hf in F0. apply eqb_prop. apply F0. apply in_seq. lia.
+  - (* whole octets *)
+    destruct v as [n|bs]; [discriminate|]. cbn [value_fits] in Hv. apply andb_true_iff in Hv as [Hl Hb]. apply Nat.eqb_eq in Hl.
+    destruct (first + count <=? List.length st)%nat eqn:Hle; [|discriminate]. apply Nat.leb_le in Hle.
+    intro E. inversion E; subst st'; clear E.
+    assert (Lf : List.length (firstn first st) = first) by (apply firstn_length_le; lia).
+    assert (Len : List.length (firstn first st ++ bs ++ skipn (first + count) st) = List.length st)
+      by (rewrite !app_length, Lf, skipn_length; lia).
+    split.
+    { cbn [spec_get]. rewrite Len. replace (first + count <=? List.length st)%nat with true by (symmetry; now apply Nat.leb_le).
+      do 2 f_equal. rewrite skipn_app, Lf, Nat.sub_diag. rewrite (skipn_all2 (firstn first st)) by lia. cbn [skipn app].
+      rewrite firstn_app, Hl, Nat.sub_diag. cbn [firstn]. rewrite app_nil_r. apply firstn_all2. lia. }
+    split; [exact Len|]. split.
+    { rewrite !octets_ok_app. rewrite octets_ok_firstn, octets_ok_skipn by assumption. unfold octets_ok. now rewrite Hb. }
+    intros i b _ Hf. cbn [in_field] in Hf. f_equal.
+    destruct (first <=? i)%nat eqn:H1.
+    + cbn [andb] in Hf. apply Nat.leb_le in H1. apply Nat.ltb_ge in Hf.
+      rewrite app_nth2 by lia. rewrite Lf. rewrite app_nth2 by lia. rewrite nth_skipn. f_equal. lia.
+    + apply Nat.leb_gt in H1. rewrite app_nth1 by lia. now apply nth_firstn_lt.
+  - (* the rest of the value *)
+    destruct v as [n|bs]; [discriminate|]. cbn [value_fits] in Hv. apply andb_true_iff in Hv as [Hl Hb]. apply Nat.eqb_eq in Hl.
+    destruct (first <=? List.length st)%nat eqn:Hle; [|discriminate]. apply Nat.leb_le in Hle.
+    intro E. inversion E; subst st'; clear E.
+    assert (Lf : List.length (firstn first st) = first) by (apply firstn_length_le; lia).
+    assert (Len : List.length (firstn first st ++ bs) = List.length st) by (rewrite app_length, Lf; lia).
+    split.
+    { cbn [spec_get]. rewrite Len. replace (first <=? List.length st)%nat with true by (symmetry; now apply Nat.leb_le).
+      do 2 f_equal. rewrite skipn_app, Lf, Nat.sub_diag. rewrite (skipn_all2 (firstn first st)) by lia. reflexivity. }
+    split; [exact Len|]. split.
+    { rewrite octets_ok_app, octets_ok_firstn by assumption. unfold octets_ok. now rewrite Hb. }
+    intros i b _ Hf. cbn [in_field] in Hf. f_equal.
+    destruct (first <=? i)%nat eqn:H1.
+    + cbn [andb] in Hf. apply Nat.ltb_ge in Hf. rewrite !nth_overflow by lia. reflexivity.
+    + apply Nat.leb_gt in H1. rewrite app_nth1 by lia. now apply nth_firstn_lt.
+Qed.
+
+(* the two together, for the accessor pairs of the tree: whatever the octets and whatever value fits the field,
+   the REAL setter followed by the REAL getter (as modelled) gives the value back and no bit outside the field moves *)
+Corollary conforming_accessors_round_trip ty f g s c st v :
+  In (ty, f, g, s, c) conforming_fields -> octets_ok st = true -> value_fits (f_kind f) st v = true ->
+  forall st', acc_set s st v = Some st' ->
+    acc_get g st' = Some v /\ List.length st' = List.length st /\
+    forall i b, (b < 8)%nat -> in_field (f_kind f) (List.length st) i b = false ->
+      N.testbit (nth i st' 0) (N.of_nat b) = N.testbit (nth i st 0) (N.of_nat b).
+Proof.
+  intros Hin Hst Hv st' E. pose proof (conforming_fields_conform _ _ _ _ _ Hin) as Hc.
+  destruct (accessor_semantics _ _ _ _ Hc st Hst) as [_ Hs]. rewrite (Hs v Hv) in E.
+  assert (Hk : kind_proved (f_kind f) = true).
+  { unfold field_conforms in Hc. apply andb_true_iff in Hc as [Hc _]. apply andb_true_iff in Hc as [_ Hg].
+    destruct (f_kind f); destruct g; cbn [get_conforms] in Hg; try discriminate; cbn [kind_proved kind_ok].
+    - split_andb Hg. exact Hg3.
+    - split_andb Hg. exact Hg4.
+    - split_andb Hg. exact Hg0.
+    - reflexivity. }
+  destruct (field_store_load _ _ _ _ Hk Hst E) as (G & L & Hok & B).
+  destruct (accessor_semantics _ _ _ _ Hc st' Hok) as [Hg _]. rewrite Hg. auto.
 Qed.
